@@ -2,6 +2,7 @@
 From Coq Require Import String.
 From V Require Import Base.Prelude Base.Ints Base.Disp Model.Helper Model.Block Model.Merkle
   Model.MerkleBlock Model.Pow Spec.Bip37 Spec.CorePow.
+From V Require Import Model.Network Model.MerkleBlockX Model.Difficulty Spec.MerkleBlockWire.
 Open Scope string_scope.
 Open Scope Z_scope.
 
@@ -112,6 +113,53 @@ Definition dispatch (H : oracle) (fn : list Z) (args : list val) : val :=
         | Some h => if total_ok total then vres vvalid (mb_is_valid_rec h256 root total h flags) else bad_args
         | None => bad_args end
     | _ => bad_args end
+  else if fn_is "populate_mut" fn then
+    match args with
+    | [VI total; VL bits; VL hs] =>
+        match vals_ints bits, vals_bytes hs with
+        | Some b, Some h =>
+            if total_ok total then
+              vres (fun '(r, p, b', h') => VL [VB r; vbl p; vil b'; vbl h']) (populate_tree_mut h256 total b h)
+            else bad_args
+        | _, _ => bad_args end
+    | _ => bad_args end
+  else if fn_is "populate_rec_mut" fn then
+    match args with
+    | [VI total; VL bits; VL hs] =>
+        match vals_ints bits, vals_bytes hs with
+        | Some b, Some h =>
+            if total_ok total then
+              vres (fun '(r, p, b', h') => VL [VB r; vbl p; vil b'; vbl h']) (populate_tree_rec_mut h256 total b h)
+            else bad_args
+        | _, _ => bad_args end
+    | _ => bad_args end
+  else if fn_is "mb_parse_is_valid" fn then
+    (* MerkleBlock.parse(s) then is_valid(), proved_txs(); the announced total is checked against
+       total_ok before the (unary) tree is built *)
+    match args with
+    | [VB s] =>
+        match mb_parse s with
+        | Ok (_, total, _, _, _) =>
+            if total_ok total then vres vvalid (mb_parse_is_valid h256 s) else bad_args
+        | Err => VErr
+        end
+    | _ => bad_args end
+  else if fn_is "headers_parse_is_valid" fn then
+    match args with [VB s] => vres_bool (headers_parse_is_valid h256 s) | _ => bad_args end
+  else if fn_is "merkleblock_bytes" fn then
+    match args with
+    | [VB hb; VI total; VL hs; VB flags] =>
+        match vals_bytes hs with
+        | Some h => VB (merkleblock_bytes hb total h flags)
+        | None => bad_args end
+    | _ => bad_args end
+  else if fn_is "merkleblock_of_block" fn then
+    match args with
+    | [VB hb; VL txids; VL m] =>
+        match vals_bytes txids, vals_ints m with
+        | Some tx, Some ms => VB (merkleblock_of_block h256 hb tx (map (fun z => negb (z =? 0)) ms))
+        | _, _ => bad_args end
+    | _ => bad_args end
   else if fn_is "mb_parse" fn then
     match args with
     | [VB s] =>
@@ -131,6 +179,11 @@ Definition dispatch (H : oracle) (fn : list Z) (args : list val) : val :=
     | _ => bad_args end
   else if fn_is "bits_to_target" fn then
     match args with [VB b] => vres vpynum (bits_to_target b) | _ => bad_args end
+  else if fn_is "difficulty" fn then
+    (* Block.difficulty() as float.as_integer_ratio() *)
+    match args with
+    | [VB b] => vres (fun me => let '(n, d) := ratio_of me in VL [VI n; VI d]) (difficulty b)
+    | _ => bad_args end
   else if fn_is "target_to_bits" fn then
     match args with [VI t] => vres_b (target_to_bits t) | _ => bad_args end
   else if fn_is "calculate_new_bits" fn then
